@@ -1,9 +1,105 @@
 """C14 — how a string is stored is unobservable (structural clauses)."""
+from lib import prog as P
 from rules import tags, nul
+
+# string type given by the user -> adapter class that must be selected
+ADAPTERS = {
+    "const char *": "StaticStringAdapter",          # kept by address
+    "char *": "ZeroTerminatedRamString",            # copied
+    "const unsigned char *": "ZeroTerminatedRamString",
+    "unsigned char *": "ZeroTerminatedRamString",
+    "const signed char *": "ZeroTerminatedRamString",
+    "const std::basic_string<char> &": "SizedRamString",
+    "const std::basic_string_view<char> &": "SizedRamString",
+    "const String &": "SizedRamString",
+    "const __FlashStringHelper *": "FlashString",
+    "const ArduinoJson::JsonString &": "JsonStringAdapter",
+}
+LINKED = {"ZeroTerminatedRamString": False, "SizedRamString": False, "FlashString": False,
+          "StaticStringAdapter": True, "JsonStringAdapter": "flag"}
+
+
+def streq(ctx, prog, rule="R-STREQ"):
+    """'Equal' only after the sizes were compared: in stringEquals and
+    JsonString::operator== every `return true` is dominated by a size test."""
+    n = 0
+    for fn in sorted(prog.fns.values(), key=lambda f: f.key):
+        if not (fn.name == "stringEquals" or (fn.name == "operator==" and len(fn.params) == 2 and
+                                               all((p.get("tr") or "").endswith("JsonString") for p in fn.params))):
+            continue
+        # forwarding overloads (swap operands) have no literal true
+        for i in fn.walk():
+            st = fn.s(i)
+            if st["k"] != "ReturnStmt" or not st["c"]:
+                continue
+            r = fn.s(fn.strip(st["c"][0], casts=True))
+            if not (r["k"] == "CXXBoolLiteralExpr" and r["v"] is True):
+                continue
+            n += 1
+            ok = False
+            for cond, pol in fn.guards_of(i):
+                c = fn.s(fn.strip(cond, casts=True))
+                if c["k"] == "BinaryOperator" and c["op"] in ("!=", "=="):
+                    txt = fn.text(fn.strip(cond, casts=True)).lower()
+                    if "size" in txt and ((c["op"] == "!=" and not pol) or (c["op"] == "==" and pol)):
+                        ok = True
+            ctx.ob(rule, "%s: equal only if the sizes are equal" % fn.short, ok, fn.loc(i),
+                   "" if ok else "a `true` result is reachable without comparing the two sizes: a string compares equal to a "
+                   "longer one that starts at the same address / with the same bytes")
+    ctx.floor(rule, "'return true' sites in string equality", n, 3)
+
+
+def linkcopy(ctx, prog, rule="R-LINKCOPY"):
+    n = 0
+    for fn in sorted(prog.q("detail::adaptString"), key=lambda f: f.key):
+        if len(fn.params) != 1:
+            continue
+        pt = fn.params[0]["t"]
+        want = ADAPTERS.get(pt)
+        if want is None:
+            continue
+        n += 1
+        got = fn.d.get("retc", "").split("::")[-1].split("<")[0]
+        ctx.ob(rule, "adaptString(%s) selects %s" % (pt.replace("ArduinoJson::", ""), want), got == want, fn.where,
+               "" if got == want else "selects %s: the string would be %s instead of %s" %
+               (got, "kept by address" if LINKED.get(got) is True else "copied", "kept by address" if LINKED.get(want) is True else "copied"), nontrivial=False)
+    ctx.floor(rule, "adaptString overloads", n, 4)
+    for fn in sorted(prog.fns.values(), key=lambda f: f.key):
+        cls = fn.cls.split("::")[-1]
+        if fn.name != "isLinked" or cls not in LINKED:
+            continue
+        rets = [j for j in fn.walk() if fn.s(j)["k"] == "ReturnStmt"]
+        r = fn.s(fn.strip(fn.s(rets[0])["c"][0], casts=True)) if len(rets) == 1 else {}
+        want = LINKED[cls]
+        if want == "flag":
+            ok = r.get("k") == "MemberExpr"
+        else:
+            ok = r.get("k") == "CXXBoolLiteralExpr" and r.get("v") is want
+        ctx.ob(rule, "%s::isLinked() is %s" % (cls, "the source's flag" if want == "flag" else str(want).lower()), ok, fn.where,
+               "" if ok else "a %s would be %s" % (cls, "stored by address although its buffer is not guaranteed to outlive the document"
+                                                  if want is False else "copied"), nontrivial=False)
+    # setLinkedString only under isLinked()
+    for fn in sorted(prog.q("VariantData::setString"), key=lambda f: f.key):
+        if fn.d.get("static"):
+            continue
+        for i, st in fn.calls():
+            if st["callee"]["q"].endswith("VariantData::setLinkedString"):
+                ok = any(pol and fn.s(fn.strip(c, casts=True))["k"] in P.CALL_KINDS and
+                         fn.s(fn.strip(c, casts=True)).get("callee", {}).get("q", "").split("::")[-1] == "isLinked"
+                         for c, pol in fn.guards_of(i))
+                ctx.ob(rule, "setString links only what isLinked() admits", ok, fn.loc(i), "", nontrivial=False)
+            if st["callee"]["q"].endswith("ResourceManager::saveString"):
+                ok = not any(pol and fn.s(fn.strip(c, casts=True)).get("callee", {}).get("q", "").split("::")[-1] == "isLinked"
+                             for c, pol in fn.guards_of(i))
+                ctx.ob(rule, "setString copies everything else", ok, fn.loc(i), "", nontrivial=False)
 
 
 def run(ctx, prog):
     ctx.doc("R-TAG", tags.__doc__.strip().split("\n\n")[1])
     ctx.doc("R-NUL", nul.__doc__.strip().split("\n\n")[1])
+    ctx.doc("R-STREQ", "string equality returns true only after comparing the sizes")
+    ctx.doc("R-LINKCOPY", "which string kinds are kept by address and which are copied: adapter selection per type and isLinked() table")
     tags.run(ctx, prog)
     nul.run(ctx, prog)
+    streq(ctx, prog)
+    linkcopy(ctx, prog)
